@@ -25,7 +25,7 @@ PROP = {
              "dropped (verif hook) and blocks r+1.. are re-executed: the restarted twin. One extra twin per history is restarted three times. "
              "12 directed histories come first: two reproducing the remaining known findings (finalized round reopened; reverted params update) and nine regression scenarios (repaired defects, removal-only validator update, token registrations; untagged). Observed per block also: GetSpecifiedAssetsPrice of every registered asset id. One history runs on a testnet-type chain id and has extra twins that answer one BaseApp.Simulate(MsgUpdateParams) after their restart. distinct = distinct sha1 of the Coq case; all cases count as non-trivial "
              "(every case re-executes at least one block on a rebuilt aggregator)"),
-    "explanation": ("Main theorem C14_restart_safe_iff: for all never-stopped histories over valid params, a block boundary (outside the narrow 'band' of feeders that just left their window with items still in the replay window) is restart-safe iff every round still inside its window is open or older than the last validator-set change; observational corollary C14_restart_safe; refutation C14_restart_refuted_final for the remaining defect class. Coq theorems about an executable model of the oracle's in-memory state, of what EndBlock persists and of "
+    "explanation": ("Main theorem C14_restart_safe_iff: for all never-stopped histories over valid params, a block boundary (outside the narrow 'band' of feeders that just left their window with items still in the replay window; C14_restart_safe_iff_weak narrows the band further: such items are allowed if the replay starts at a validator-set change, if they lie in one block, or if those before the last item block carry at most the 2/3 threshold power) is restart-safe iff every round still inside its window is open or older than the last validator-set change; observational corollary C14_restart_safe; refutation C14_restart_refuted_final for the remaining defect class. Coq theorems about an executable model of the oracle's in-memory state, of what EndBlock persists and of "
                     "recacheAggregatorContext, for all histories; the model is tied to the code by differential execution (codes, store "
                     "projection and live memory after every block, and recache(model store) vs the memory the restarted implementation "
                     "rebuilt). The property itself (restarted twin == never-stopped run: result codes, prices/round ids, whole oracle store "
